@@ -3,6 +3,7 @@
    every container exactly as append_trail does; ItemKey for dict keys). *)
 From Coq Require Import List ZArith Bool String.
 From AV Require Import Model.Val Model.Load Proofs.LoadProofs Proofs.TrailProofs Proofs.CompleteProofs.
+From AV Require Model.Layout Model.CrownSem Proofs.CrownProofs Proofs.CrownTrails.
 Import ListNotations.
 
 (* FIRST and ALL: following the (concatenated) trail of every reported leaf error from the root of the input datum
@@ -93,4 +94,49 @@ Example C05_all_leaves_example :
                [(VStr "a", VList [VInt 1; VStr "x"]); (VInt 7, VList [VNone])]
   = [([Key (VStr "a"); Idx 1], TypeLE, Some (VStr "x")); ([ItemKey (VInt 7)], TypeLE, Some (VInt 7));
      ([Key (VInt 7); Idx 0], TypeLE, Some VNone)].
+Proof. vm_compute. reflexivity. Qed.
+
+
+(* ---- generated model loaders (Model/CrownSem.v), "including through renamed and flattened model paths": the crown is
+   the layout after every rename / nesting / list index has been resolved (C03 proves that it puts each field at the
+   configured path).  For every crown - any nesting of mapping and list nodes -, extra policy and datum.
+   `CrownTrails.exact info pol c d [] (E cl t)`: following t from the root of d through mapping keys and list
+   indices reaches a sub-value w, following t through the crown reaches a node, and w offends that node exactly as
+   the class cl says: wrong kind (not an int for a field, not a mapping / list for a node); required keys missing, cl
+   naming exactly the missing ones; unknown keys under the forbid policy, cl naming exactly those; too short / long a list. ---- *)
+Theorem C05_model_all_trails_exact : forall (info : CrownSem.finfos) (pol : Layout.policy) c d es,
+  CrownSem.load info pol CrownSem.All c d = CrownSem.Group es -> Forall (CrownTrails.exact info pol c d []) es.
+Proof. exact CrownTrails.model_all_trails_exact. Qed.
+Print Assumptions C05_model_all_trails_exact.
+
+(* ALL is complete at every depth: whatever sub-value, reachable from the root of the datum, offends the crown node found
+   along the same trail is reported under exactly that trail *)
+Theorem C05_model_all_reports_every_offence : forall (info : CrownSem.finfos) (pol : Layout.policy) c d, Layout.is_leaf c = false ->
+  forall q node w cl, CrownTrails.at_path c q node -> CrownProofs.get_data d q = Some w -> CrownTrails.offends info pol node w cl ->
+    exists es, CrownSem.load info pol CrownSem.All c d = CrownSem.Group es /\ In (CrownSem.E cl q) es.
+Proof. exact CrownTrails.model_all_complete. Qed.
+Print Assumptions C05_model_all_reports_every_offence.
+
+(* FIRST: exactly one error, with its full trail, and it is exact *)
+Theorem C05_model_first_trail_exact : forall (info : CrownSem.finfos) (pol : Layout.policy) c d e,
+  CrownSem.load info pol CrownSem.First c d = CrownSem.Single e -> CrownTrails.exact info pol c d [] e.
+Proof. exact CrownTrails.model_first_trail_exact. Qed.
+Print Assumptions C05_model_first_trail_exact.
+
+(* DISABLE: no trail *)
+Theorem C05_model_disable_no_trail : forall (info : CrownSem.finfos) (pol : Layout.policy) c d cl t,
+  CrownSem.load info pol CrownSem.Disable c d = CrownSem.Single (CrownSem.E cl t) -> t = [].
+Proof. exact CrownTrails.model_disable_no_trail. Qed.
+Print Assumptions C05_model_disable_no_trail.
+
+(* non-vacuity: a flattened layout with a list node and three independent faults plus an unknown key *)
+Example C05_model_trails_example :
+  let info := fun i => {| CrownSem.fi_required := true; CrownSem.fi_default := 0 |} in
+  let c := Layout.CDict [("a", Layout.CField 0); ("p", Layout.CDict [("q", Layout.CField 1); ("r", Layout.CField 2)]);
+                         ("l", Layout.CList [Layout.CField 3; Layout.CField 4])]%string in
+  let d := CrownSem.VDict [(Layout.KS "a", CrownSem.VStr "x"); (Layout.KS "p", CrownSem.VDict [(Layout.KS "q", CrownSem.VInt 1)]);
+                           (Layout.KS "l", CrownSem.VList [CrownSem.VInt 3; CrownSem.VNone]); (Layout.KS "zz", CrownSem.VNone)]%string in
+  CrownSem.load info Layout.Forbid CrownSem.All c d =
+    CrownSem.Group [CrownSem.E CrownSem.TypeLE [Layout.KS "a"]; CrownSem.E (CrownSem.NoReqFields ["r"]) [Layout.KS "p"];
+                    CrownSem.E CrownSem.TypeLE [Layout.KS "l"; Layout.KI 1]; CrownSem.E (CrownSem.ExtraFields [Layout.KS "zz"]) []]%string.
 Proof. vm_compute. reflexivity. Qed.
